@@ -519,6 +519,8 @@ Definition menu (c : Z) : option fld :=
   else if c =? 40 then Some (tuple_fld [u8_fld; pod_fld 2 2; u8_fld])      (* (u8, u16, u8) *)
   else if c =? 41 then Some (pod_fld 0 8)                                 (* [u64; 0]: no bytes, alignment 8 *)
   else if c =? 42 then Some (pod_fld 0 2)                                 (* [u16; 0] *)
+  else if c =? 43 then Some (mk 8 8 false false true false false VAny)    (* *const u8: pointer-sized and -aligned whatever it points to; bytemuck: Zeroable only *)
+  else if c =? 44 then Some (mk 8 8 false false true false false VAny)    (* *mut [u8; 2] *)
   else None.
 
 Definition as_param (f : fld) : fld :=
